@@ -243,6 +243,7 @@ pub struct ReadBack {
     pub data: Vec<u8>,
     pub file_name: Vec<u8>,
     pub mode: u8,
+    pub created: u32,
     pub n_sigs_valid: usize,
     pub n_sigs: usize,
 }
@@ -320,9 +321,9 @@ pub fn read_back(
     };
     let mut msg = if msg.is_compressed() { msg.decompress().map_err(e)? } else { msg };
     let data = pull(&mut msg, pattern).map_err(|x| x.to_string())?;
-    let (file_name, mode) = match msg.literal_data_header() {
-        Some(h) => (h.file_name().to_vec(), u8::from(h.mode())),
-        None => (Vec::new(), 0),
+    let (file_name, mode, created) = match msg.literal_data_header() {
+        Some(h) => (h.file_name().to_vec(), u8::from(h.mode()), h.created().as_secs()),
+        None => (Vec::new(), 0, u32::MAX),
     };
     let signers = cfg["signers"].as_array().map(|a| a.as_slice()).unwrap_or(&[]);
     let mut n_valid = 0;
@@ -332,5 +333,5 @@ pub fn read_back(
         let res = msg.verify_nested(&refs).map_err(e)?;
         n_valid = res.iter().filter(|r| matches!(r, VerificationResult::Valid(_))).count();
     }
-    Ok(ReadBack { data, file_name, mode, n_sigs_valid: n_valid, n_sigs: signers.len() })
+    Ok(ReadBack { data, file_name, mode, created, n_sigs_valid: n_valid, n_sigs: signers.len() })
 }
